@@ -104,6 +104,9 @@ func Run(c *common.Ctx) error {
 		cf.Add(h.CoqCase(), map[string]any{"kind": "history", "page_size": cfg.PageSize, "scripted": "rolled-back WAL transactions", "steps": h.Steps})
 		h.Close()
 	}
+	if err := importCases(c); err != nil {
+		return err
+	}
 	for i := 0; i < nHist; i++ {
 		cfg := cfgs[i%len(cfgs)]
 		h, err := hist.New(c, c.Rng.Fork(), cfg)
